@@ -22,9 +22,14 @@ Hypothesis Hdel : cf_del_checked cfg = true.
     candidate list the translator yields, [IP] of every raw input string (closed
     under the string operations of Context); instantiated with [True] for the
     range clauses and with "clean candidates" / "ASCII" for the UTF-8 clause *)
-Variable MP : menu -> Prop.
+Variable MP : nat -> menu -> Prop.     (* indexed by the start of the segment the list was made for *)
 Variable IP : bytes -> Prop.
-Hypothesis HMP : forall i s, IP i -> MP (translate i s).
+Hypothesis HMP : forall i s, IP i -> MP (si_start s) (translate i s).
+(** [GE] switches the geometric part of the invariant on (used for C01's
+    totality; [False] for C02/C03): it needs candidates that end at or after
+    the start of their segment *)
+Variable GE : Prop.
+Hypothesis HGE : GE -> forall st m, MP st m -> forall c, In c m -> st <= c_end c.
 Hypothesis IP_nil : IP [].
 Hypothesis IP_firstn : forall n l, IP l -> IP (firstn n l).
 Hypothesis IP_skipn : forall n l, IP l -> IP (skipn n l).
@@ -37,7 +42,7 @@ Definition menu_bounded (m : menu) : Prop := (Z.of_nat (length m) + cf_page_size
 
 Definition seg_inv (g : segment) : Prop :=
   s_prompt g = [] /\
-  forall m, s_menu g = Some m -> menu_bounded m /\ (m <> [] -> (s_sel g < menu_count m)%N) /\ MP m.
+  forall m, s_menu g = Some m -> menu_bounded m /\ (m <> [] -> (s_sel g < menu_count m)%N) /\ MP (s_start g) m.
 Definition segs_inv (l : list segment) : Prop := Forall seg_inv l.
 (** [cpre]: what Compose needs; [cinv]: what holds after every operation
     (the composition's own input is then no longer than the raw input) *)
@@ -46,17 +51,32 @@ Definition segs_inv (l : list segment) : Prop := Forall seg_inv l.
 Definition err_ok (e : option err) : Prop :=
   match e with Some ErrNullDeref | Some ErrBadRange => False | _ => True end.
 
+(** geometry of a segmentation (segments stored reversed): the first segment
+    starts at 0, each next one where the previous ends; every segment has
+    start <= end <= |the segmentation's input| *)
+Fixpoint chain_rev (l : list segment) : Prop :=
+  match l with
+  | [] => True
+  | g :: r => match r with [] => s_start g = 0 | g' :: _ => s_start g = s_end g' end /\ chain_rev r
+  end.
+Definition seg_geo (n : nat) (g : segment) : Prop := s_start g <= s_end g /\ s_end g <= n.
+Definition sgeo (sg : segmentation) : Prop :=
+  chain_rev (sg_segs sg) /\ Forall (seg_geo (length (sg_input sg))) (sg_segs sg).
+
 Definition cpre (c : context) : Prop :=
   cx_caret c <= length (cx_input c) /\ segs_inv (sg_segs (cx_comp c)) /\
-  IP (cx_input c) /\ IP (sg_input (cx_comp c)) /\ err_ok (cx_err c).
+  IP (cx_input c) /\ IP (sg_input (cx_comp c)) /\ err_ok (cx_err c) /\
+  (GE -> sgeo (cx_comp c) /\ cx_err c <> Some ErrFuel).
 Definition cinv (c : context) : Prop :=
-  cpre c /\ length (sg_input (cx_comp c)) <= length (cx_input c).
+  cpre c /\ length (sg_input (cx_comp c)) <= length (cx_input c) /\
+  (GE -> cx_caret c <= length (sg_input (cx_comp c))).
 Definition sinv (s : state) : Prop := cinv (st_ctx s).
 
 (** ---- segments ---- *)
 Lemma seg_inv_same g g' :
-  s_menu g' = s_menu g -> s_sel g' = s_sel g -> s_prompt g' = s_prompt g -> seg_inv g -> seg_inv g'.
-Proof. intros Hm Hs Hp (H0 & H). split; [rewrite Hp; exact H0|]. intros m. rewrite Hm, Hs. apply H. Qed.
+  s_menu g' = s_menu g -> s_sel g' = s_sel g -> s_prompt g' = s_prompt g -> s_start g' = s_start g ->
+  seg_inv g -> seg_inv g'.
+Proof. intros Hm Hs Hp Hst (H0 & H). split; [rewrite Hp; exact H0|]. intros m. rewrite Hm, Hs, Hst. apply H. Qed.
 
 Lemma seg_inv_nomenu g : s_menu g = None -> s_prompt g = [] -> seg_inv g.
 Proof. intros H Hp. split; [exact Hp|]. intros m. rewrite H. discriminate. Qed.
@@ -211,7 +231,7 @@ Proof.
   pose proof (substr_se_ip inp (s_start g) (s_end g) Hinp) as Hsub.
   destruct (substr_se inp (s_start g) (s_end g)) as [s ok]. cbn [fst] in *.
   split; [exact (proj1 H)|].
-  intros m Hm. cbn in Hm. injection Hm as <-. split; [apply Hlen|]. split; [|apply HMP; exact Hsub].
+  intros m Hm. cbn in Hm. injection Hm as <-. split; [apply Hlen|]. split; [|apply (HMP s (seg_info g)); exact Hsub].
   intros Hne. cbn [s_sel]. unfold menu_count. destruct (translate s (seg_info g)); [congruence|]. cbn [length]. lia.
 Qed.
 
@@ -288,24 +308,337 @@ Qed.
 Lemma translate_segs_input sg : sg_input (fst (translate_segs translate sg)) = sg_input sg.
 Proof. unfold translate_segs. destruct (translate_list translate (sg_input sg) (sg_segs sg)). reflexivity. Qed.
 
-(** ---- contexts ---- *)
-Lemma err_ok_fail c e : e = ErrSubstr \/ e = ErrFuel -> err_ok (cx_err c) -> err_ok (cx_err (ctx_fail c e)).
-Proof. intros He H. cbn. destruct (cx_err c); [exact H|]. destruct He as [-> | ->]; exact I. Qed.
-Lemma cinv_err c e : e = ErrSubstr \/ e = ErrFuel -> cinv c -> cinv (ctx_fail c e).
+(** ---- geometry of segmentations ---- *)
+Lemma seg_geo_le n m g : n <= m -> seg_geo n g -> seg_geo m g.
+Proof. intros H (A & B). split; lia. Qed.
+
+Lemma sgeo_nil i : sgeo (mkSegm i []).
+Proof. split; constructor. Qed.
+
+Lemma chain_tl l : chain_rev l -> chain_rev (tl l).
+Proof. destruct l; [auto|]. intros (_ & H); exact H. Qed.
+
+Lemma pop_back_geo sg : sgeo sg -> sgeo (sg_pop_back sg).
 Proof.
-  intros He ((H1 & H2 & H3 & H4 & H5) & H6). split; [|exact H6]. repeat split; try assumption.
-  apply err_ok_fail; assumption.
+  intros (Hc & Hf). split; cbn; [apply chain_tl, Hc|]. destruct (sg_segs sg); [constructor | inversion Hf; assumption].
 Qed.
-Lemma cinv_check c b e : e = ErrSubstr \/ e = ErrFuel -> cinv c -> cinv (ctx_check c b e).
-Proof. intros He H. unfold ctx_check. destruct b; [exact H | apply cinv_err; assumption]. Qed.
+
+Lemma with_segs_tl_geo sg : sgeo sg -> sgeo (sg_with_segs sg (tl (sg_segs sg))).
+Proof. apply pop_back_geo. Qed.
+
+Lemma forward_geo sg : sgeo sg -> sgeo (fst (forward sg)).
+Proof.
+  intros (Hc & Hf). unfold forward. destruct (sg_segs sg) as [|g r] eqn:E; cbn [fst]; [split; rewrite E; assumption|].
+  destruct (s_start g =? s_end g); cbn [fst]; [split; rewrite E; assumption|].
+  inversion Hf as [|? ? (A & B) Hr]; subst. split; cbn; rewrite E.
+  - split; [reflexivity | exact Hc].
+  - constructor; [split; cbn; [lia | exact B] | exact Hf].
+Qed.
+
+Lemma trim_geo sg : sgeo sg -> sgeo (fst (trim sg)).
+Proof.
+  intros H. unfold trim. destruct (sg_segs sg) as [|g r] eqn:E; cbn [fst]; [exact H|].
+  destruct (s_start g =? s_end g); cbn [fst]; [|exact H]. apply pop_back_geo, H.
+Qed.
+
+(** replacing the last segment by one with the same start *)
+Lemma set_back_geo sg g g0 r :
+  sgeo sg -> sg_segs sg = g0 :: r -> s_start g = s_start g0 -> seg_geo (length (sg_input sg)) g ->
+  sgeo (sg_with_segs sg (g :: r)).
+Proof.
+  intros (Hc & Hf) E Hs Hg. rewrite E in Hc, Hf. split; cbn.
+  - destruct Hc as (H1 & H2). split; [rewrite Hs; exact H1 | exact H2].
+  - inversion Hf; subst. constructor; assumption.
+Qed.
+
+(** ends decrease towards the front: every earlier segment ends at or before the start of a later one *)
+Lemma chain_ends_le n g r : chain_rev (g :: r) -> Forall (seg_geo n) (g :: r) -> Forall (fun g' => s_end g' <= s_start g) r.
+Proof.
+  revert g. induction r as [|g1 r IH]; intros g Hc Hf; [constructor|].
+  destruct Hc as (H1 & Hc1). inversion Hf as [|? ? Hg Hf1]; subst.
+  constructor; [lia|]. specialize (IH g1 Hc1 Hf1). inversion Hf1 as [|? ? (A & B) _]; subst.
+  eapply Forall_impl; [|exact IH]. intros a Ha. cbn in Ha. lia.
+Qed.
+
+Lemma dispose_geo l d n :
+  chain_rev l -> Forall (seg_geo n) l ->
+  chain_rev (fst (dispose l d)) /\ Forall (seg_geo (Nat.min n d)) (fst (dispose l d)) /\ (d <= n -> True).
+Proof.
+  induction l as [|g r IH]; intros Hc Hf; [cbn; repeat split; constructor|]. cbn [dispose].
+  destruct (d <? s_end g) eqn:E.
+  - destruct (dispose r d) as [l' k] eqn:Ed. cbn [fst] in *. inversion Hf; subst. apply IH; [apply (chain_tl (g :: r)), Hc | assumption].
+  - apply Nat.ltb_ge in E. cbn [fst]. split; [exact Hc|]. split; [|auto].
+    pose proof (chain_ends_le n g r Hc Hf) as Hle. inversion Hf as [|? ? (A & B) Hr]; subst.
+    constructor; [split; lia|].
+    apply Forall_forall. intros a Ha. pose proof (proj1 (Forall_forall _ _) Hle a Ha) as H1. cbn in H1.
+    pose proof (proj1 (Forall_forall _ _) Hr a Ha) as (A1 & B1). split; lia.
+Qed.
+
+Lemma reset_input_geo sg ni : sgeo sg -> sgeo (reset_input sg ni).
+Proof.
+  intros (Hc & Hf). unfold reset_input.
+  destruct (dispose_geo (sg_segs sg) (common_prefix (sg_input sg) ni) (length (sg_input sg)) Hc Hf) as (D1 & D2 & _).
+  destruct (dispose (sg_segs sg) (common_prefix (sg_input sg) ni)) as [l k]. cbn [fst] in *.
+  assert (Hle : Nat.min (length (sg_input sg)) (common_prefix (sg_input sg) ni) <= length ni).
+  { assert (common_prefix (sg_input sg) ni <= length ni); [|lia].
+    clear. revert ni. induction (sg_input sg) as [|x a IH]; intros [|y b]; cbn; try lia.
+    destruct (Byte.eqb x y); [specialize (IH b)|]; lia. }
+  assert (H1 : sgeo (mkSegm ni l)).
+  { split; cbn; [exact D1|]. eapply Forall_impl; [|exact D2]. intros a. apply seg_geo_le. exact Hle. }
+  destruct (0 <? k); cbn [sg_segs].
+  - pose proof (forward_geo (sg_with_segs sg l)) as Hfw.
+    assert (H2 : sgeo (sg_with_segs sg l) -> sgeo (mkSegm ni (sg_segs (fst (forward (sg_with_segs sg l)))))).
+    { intros _. pose proof (forward_geo (mkSegm ni l) H1) as H3. unfold forward in *. cbn [sg_segs sg_with_segs] in *.
+      destruct l as [|g r]; [exact H3|]. destruct (s_start g =? s_end g); exact H3. }
+    apply H2. split; cbn; [exact D1|]. eapply Forall_impl; [|exact D2]. intros a. apply seg_geo_le. lia.
+  - exact H1.
+Qed.
+
+Lemma add_segment_geo sg g :
+  sgeo sg -> seg_geo (length (sg_input sg)) g -> sgeo (fst (add_segment sg g)).
+Proof.
+  intros H Hg. unfold add_segment. destruct (s_start g =? cur_start sg) eqn:Es; cbn [negb]; [|exact H].
+  apply Nat.eqb_eq in Es. destruct (sg_segs sg) as [|last r] eqn:E.
+  - cbn [fst]. split; cbn; rewrite E; [|constructor; [exact Hg | constructor]].
+    unfold cur_start in Es. rewrite E in Es. split; [exact Es | exact I].
+  - unfold cur_start in Es. rewrite E in Es.
+    destruct (s_end g <? s_end last); cbn [fst]; [exact H|].
+    destruct (s_end last <? s_end g); cbn [fst].
+    + apply (set_back_geo sg g last r H E Es Hg).
+    + apply (set_back_geo sg _ last r H E); [reflexivity|]. destruct H as (_ & Hf). rewrite E in Hf. inversion Hf; assumption.
+Qed.
+
+Lemma abc_scan_le l f e : abc_scan cfg l f e <= length l.
+Proof.
+  revert f e. induction l as [|b r IH]; intros f e; cbn [abc_scan length]; [lia|].
+  destruct (negb _ && negb _); [lia|]. destruct (e && _ && _); [lia|]. specialize (IH false (mem_byte b (cf_finals cfg) || (negb f && mem_byte b (cf_delims cfg)))). lia.
+Qed.
+
+Lemma cur_geo sg : sgeo sg -> cur_start sg <= cur_end sg /\ cur_end sg <= length (sg_input sg).
+Proof.
+  intros (_ & Hf). unfold cur_start, cur_end. destruct (sg_segs sg); [lia|]. inversion Hf as [|? ? (A & B) _]; subst. lia.
+Qed.
+
+Lemma abc_proceed_geo sg : sgeo sg -> sgeo (abc_proceed cfg sg).
+Proof.
+  intros H. unfold abc_proceed. destruct (cur_geo sg H) as (A & B).
+  destruct (cur_start sg <? _) eqn:E; [|exact H]. apply Nat.ltb_lt in E.
+  apply add_segment_geo; [exact H|]. split; cbn; [lia|].
+  pose proof (abc_scan_le (skipn (cur_start sg) (sg_input sg)) true true) as Hl. rewrite skipn_length in Hl. lia.
+Qed.
+
+Lemma fallback_proceed_geo sg : sgeo sg -> sgeo (fallback_proceed sg).
+Proof.
+  intros H. unfold fallback_proceed. destruct (0 <? cur_len sg) eqn:El; [exact H|].
+  destruct (cur_start sg =? length (sg_input sg)) eqn:Ek; [exact H|].
+  apply Nat.ltb_ge in El. apply Nat.eqb_neq in Ek. destruct (cur_geo sg H) as (A & B).
+  assert (Hse : cur_end sg = cur_start sg).
+  { unfold cur_len, cur_start, cur_end in *. destruct (sg_segs sg); [reflexivity | lia]. }
+  set (k := cur_start sg) in *.
+  set (sg1 := match sg_segs sg with
+              | g :: _ => if s_start g =? s_end g then sg_pop_back sg else sg
+              | [] => sg
+              end).
+  assert (H1 : sgeo sg1 /\ sg_input sg1 = sg_input sg /\ cur_end sg1 = k).
+  { subst sg1. destruct (sg_segs sg) as [|g r] eqn:E.
+    - split; [exact H|]. split; [reflexivity|]. unfold cur_end, k, cur_start. rewrite E. reflexivity.
+    - unfold k, cur_start, cur_end in *. rewrite E in *. replace (s_start g =? s_end g) with true by (symmetry; apply Nat.eqb_eq; lia).
+      split; [apply pop_back_geo, H|]. split; [reflexivity|]. cbn. rewrite E. cbn.
+      destruct H as (Hc & _). rewrite E in Hc. destruct Hc as (Hc1 & _). destruct r; cbn; lia. }
+  destruct H1 as (G1 & I1 & C1).
+  assert (Hadd : sgeo (fst (add_segment (fst (forward sg1)) (seg_with_tags (new_segment k (S k)) [TRaw])))).
+  { apply add_segment_geo; [apply forward_geo, G1|]. rewrite forward_input, I1. split; cbn; lia. }
+  destruct (sg_segs sg1) as [|last r] eqn:E1; [exact Hadd|].
+  destruct (has_tag TRaw (s_tags last)); [|exact Hadd].
+  unfold cur_end in C1. rewrite E1 in C1.
+  pose proof (set_back_geo sg1 (seg_with_tags (seg_clear (seg_with_end last (S k))) [TRaw]) last r G1 E1 eq_refl) as Hs.
+  apply Hs. rewrite I1. destruct G1 as (_ & Hf). rewrite E1 in Hf. inversion Hf as [|? ? (X & Y) _]; subst.
+  split; cbn; lia.
+Qed.
+
+Lemma add_segment_cur sg g :
+  cur_start (fst (add_segment sg g)) = cur_start sg /\ cur_end sg <= cur_end (fst (add_segment sg g)).
+Proof.
+  unfold add_segment. destruct (s_start g =? cur_start sg) eqn:Es; cbn [negb fst]; [|split; [reflexivity | lia]].
+  apply Nat.eqb_eq in Es. unfold cur_start, cur_end in *. destruct (sg_segs sg) as [|l r] eqn:E; cbn [fst sg_push_back sg_segs sg_with_segs].
+  - split; [exact Es | lia].
+  - destruct (s_end g <? s_end l) eqn:E1; cbn [fst]; [rewrite E; split; [reflexivity | lia]|].
+    destruct (s_end l <? s_end g) eqn:E2; cbn [fst sg_segs sg_with_segs].
+    + apply Nat.ltb_lt in E2. split; [exact Es | lia].
+    + cbn. split; [reflexivity | lia].
+Qed.
+
+Lemma forward_cur_end sg : cur_end (fst (forward sg)) = cur_end sg.
+Proof.
+  unfold forward, cur_end. destruct (sg_segs sg) as [|g r] eqn:E; cbn [fst]; [rewrite E; reflexivity|].
+  destruct (s_start g =? s_end g); cbn; [rewrite E; reflexivity | reflexivity].
+Qed.
+
+Lemma forward_cur_start sg : sgeo sg -> cur_start (fst (forward sg)) = cur_end sg.
+Proof.
+  intros H. destruct (cur_geo sg H) as (A & _). unfold forward, cur_start, cur_end in *.
+  destruct (sg_segs sg) as [|g r] eqn:E; cbn [fst]; [rewrite E; reflexivity|].
+  destruct (s_start g =? s_end g) eqn:Ee; cbn; [rewrite E; now apply Nat.eqb_eq in Ee | reflexivity].
+Qed.
+
+Lemma abc_proceed_cur_start sg : cur_start (abc_proceed cfg sg) = cur_start sg.
+Proof. unfold abc_proceed. destruct (cur_start sg <? _); [apply add_segment_cur | reflexivity]. Qed.
+
+(** one round of the segmentors never moves the end of the current segment before the round's start position *)
+Lemma round_progress sg :
+  sgeo sg -> cur_start sg <= cur_end (fallback_proceed (abc_proceed cfg sg)).
+Proof.
+  intros H. pose proof (abc_proceed_geo sg H) as Ha. rewrite <- (abc_proceed_cur_start sg).
+  set (sa := abc_proceed cfg sg) in *. destruct (cur_geo sa Ha) as (A & B).
+  unfold fallback_proceed. destruct (0 <? cur_len sa) eqn:El; [exact A|].
+  destruct (cur_start sa =? length (sg_input sa)) eqn:Ek; [exact A|].
+  apply Nat.ltb_ge in El.
+  assert (Hse : cur_end sa = cur_start sa).
+  { unfold cur_len, cur_start, cur_end in *. destruct (sg_segs sa); [reflexivity | lia]. }
+  set (k := cur_start sa) in *.
+  set (sg1 := match sg_segs sa with
+              | g :: _ => if s_start g =? s_end g then sg_pop_back sa else sa
+              | [] => sa
+              end).
+  assert (C1 : cur_end sg1 = k \/ sg_segs sg1 = []).
+  { subst sg1. destruct (sg_segs sa) as [|g r] eqn:E; [right; exact E|].
+    unfold k, cur_start, cur_end in *. rewrite E in *. replace (s_start g =? s_end g) with true by (symmetry; apply Nat.eqb_eq; lia).
+    destruct Ha as (Hc & _). rewrite E in Hc. destruct Hc as (Hc1 & _). cbn. rewrite E. cbn.
+    destruct r; [right; reflexivity | left; lia]. }
+  assert (Hadd : k <= cur_end (fst (add_segment (fst (forward sg1)) (seg_with_tags (new_segment k (S k)) [TRaw])))).
+  { destruct (add_segment_cur (fst (forward sg1)) (seg_with_tags (new_segment k (S k)) [TRaw])) as (_ & Hge).
+    rewrite forward_cur_end in Hge. destruct C1 as [C1 | C1]; [lia|].
+    (* empty list: the segment (k, k+1) is pushed when k = 0, else nothing happens and cur_end = 0 ... k = cur_start of [] = 0 *)
+    unfold add_segment, forward. rewrite C1. cbn [fst cur_start sg_segs s_start seg_with_tags new_segment].
+    destruct (k =? 0) eqn:E0; cbn [negb fst]; [cbn; rewrite C1; cbn; lia|].
+    (* k <> 0 while the popped list is empty: then sa was [(k,k)] with chain start 0, so k = 0 *)
+    exfalso. apply Nat.eqb_neq in E0. subst sg1. destruct (sg_segs sa) as [|g r] eqn:E; [unfold k, cur_start in E0; rewrite E in E0; lia|].
+    unfold k, cur_start, cur_end in *. rewrite E in *.
+    destruct (s_start g =? s_end g); [|rewrite E in C1; discriminate]. cbn in C1. rewrite E in C1. cbn in C1. subst r.
+    destruct Ha as (Hc & _). rewrite E in Hc. destruct Hc as (Hc1 & _). lia. }
+  destruct (sg_segs sg1) as [|last r] eqn:E1; [exact Hadd|].
+  destruct (has_tag TRaw (s_tags last)); [|exact Hadd]. cbn. lia.
+Qed.
+
+Lemma calc_loop_geo fuel caret sg : sgeo sg -> sgeo (fst (calc_loop cfg fuel caret sg)).
+Proof.
+  revert sg. induction fuel as [|f IH]; intros sg H; cbn [calc_loop].
+  - destruct (has_finished sg); exact H.
+  - destruct (has_finished sg); [exact H|].
+    pose proof (fallback_proceed_geo _ (abc_proceed_geo _ H)) as H2.
+    destruct (cur_start sg =? cur_end (fallback_proceed (abc_proceed cfg sg))); [exact H2|].
+    destruct (caret <=? cur_start sg); [exact H2|].
+    apply IH. destruct (has_finished (fallback_proceed (abc_proceed cfg sg))); [exact H2 | apply forward_geo; exact H2].
+Qed.
+
+Lemma calc_loop_finished fuel caret sg : has_finished sg = true -> calc_loop cfg fuel caret sg = (sg, true).
+Proof. intros H. destruct fuel; cbn [calc_loop]; rewrite H; reflexivity. Qed.
+
+(** CalculateSegmentation finishes: every round that goes on starts strictly
+    further right, so |input| + 1 rounds suffice *)
+Lemma calc_loop_ok fuel caret : forall sg,
+  sgeo sg -> length (sg_input sg) - cur_start sg < fuel -> snd (calc_loop cfg fuel caret sg) = true.
+Proof.
+  induction fuel as [|f IH]; intros sg H Hm; [lia|]. cbn [calc_loop].
+  destruct (has_finished sg) eqn:Efin; [reflexivity|].
+  pose proof (fallback_proceed_geo _ (abc_proceed_geo _ H)) as H2.
+  pose proof (round_progress sg H) as Hp.
+  set (sg2 := fallback_proceed (abc_proceed cfg sg)) in *.
+  destruct (cur_start sg =? cur_end sg2) eqn:Ee; [reflexivity|]. apply Nat.eqb_neq in Ee.
+  destruct (caret <=? cur_start sg); [reflexivity|].
+  destruct (has_finished sg2) eqn:Ef2; [rewrite (calc_loop_finished f caret sg2 Ef2); reflexivity|].
+  apply IH; [apply forward_geo, H2|]. rewrite forward_input, (forward_cur_start sg2 H2).
+  assert (Hin : sg_input sg2 = sg_input sg) by (unfold sg2; rewrite fallback_proceed_input, abc_proceed_input; reflexivity).
+  rewrite Hin. unfold has_finished in Efin. apply Nat.leb_gt in Efin. destruct (cur_geo sg H) as (A & _). lia.
+Qed.
+
+Lemma calc_segmentation_geo caret sg : sgeo sg -> sgeo (fst (calc_segmentation cfg caret sg)) /\ snd (calc_segmentation cfg caret sg) = true.
+Proof.
+  intros H. unfold calc_segmentation.
+  pose proof (calc_loop_geo (S (length (sg_input sg))) caret sg H) as H1.
+  pose proof (calc_loop_ok (S (length (sg_input sg))) caret sg H ltac:(lia)) as Hok.
+  destruct (calc_loop cfg (S (length (sg_input sg))) caret sg) as [sg1 ok]. cbn [fst snd] in *. subst ok.
+  split; [|reflexivity].
+  set (sg2 := match sg_segs sg1 with
+              | g :: _ => if has_tag TPlaceholder (s_tags g) then sg1 else fst (trim sg1)
+              | [] => sg1
+              end).
+  assert (H2 : sgeo sg2).
+  { subst sg2. destruct (sg_segs sg1) as [|g r]; [exact H1|].
+    destruct (has_tag TPlaceholder (s_tags g)); [exact H1 | apply trim_geo, H1]. }
+  destruct (sg_segs sg2) as [|g r]; cbn [fst]; [exact H2|].
+  destruct (status_geb (s_status g) SSelected); cbn [fst]; [apply forward_geo|]; exact H2.
+Qed.
+
+Lemma translate_list_geo inp n l :
+  Forall (seg_geo n) l -> n <= length inp ->
+  Forall (seg_geo n) (fst (translate_list translate inp l)) /\ snd (translate_list translate inp l) = true /\
+  map s_start (fst (translate_list translate inp l)) = map s_start l /\
+  map s_end (fst (translate_list translate inp l)) = map s_end l.
+Proof.
+  intros Hf Hn. induction Hf as [|g r (A & B) Hr IH]; [cbn; repeat split; constructor|].
+  cbn [translate_list]. destruct IH as (I1 & I2 & I3 & I4).
+  destruct (translate_list translate inp r) as [r' ok2]. cbn [fst snd] in *. subst ok2.
+  unfold translate_one. destruct (status_geb (s_status g) SGuess).
+  - cbn [fst snd map]. rewrite I3, I4. repeat split; auto. constructor; [split|]; assumption.
+  - unfold substr_se. replace (length inp <? s_start g) with false by (symmetry; apply Nat.ltb_ge; lia).
+    replace (s_start g <=? s_end g) with true by (symmetry; apply Nat.leb_le; lia).
+    cbn [fst snd map s_start s_end andb]. rewrite I3, I4. repeat split; auto. constructor; [split; cbn|]; assumption.
+Qed.
+
+Lemma chain_same l l' : map s_start l' = map s_start l -> map s_end l' = map s_end l -> chain_rev l -> chain_rev l'.
+Proof.
+  revert l'. induction l as [|g r IH]; intros [|g' r'] Hs He Hc; try discriminate; [exact I|].
+  cbn [map] in Hs, He. injection Hs as Hs1 Hs2. injection He as He1 He2. destruct Hc as (H1 & H2).
+  split; [|apply IH; assumption]. destruct r as [|g1 r1]; destruct r' as [|g1' r1']; try discriminate; [congruence|].
+  cbn [map] in Hs2, He2. injection He2 as He21 _. congruence.
+Qed.
+
+Lemma translate_segs_geo sg : sgeo sg -> sgeo (fst (translate_segs translate sg)) /\ snd (translate_segs translate sg) = true.
+Proof.
+  intros (Hc & Hf). unfold translate_segs.
+  destruct (translate_list_geo (sg_input sg) (length (sg_input sg)) (sg_segs sg) Hf (le_n _)) as (T1 & T2 & T3 & T4).
+  destruct (translate_list translate (sg_input sg) (sg_segs sg)) as [l ok]. cbn [fst snd] in *.
+  split; [|exact T2]. split; cbn; [apply (chain_same (sg_segs sg) l T3 T4 Hc) | exact T1].
+Qed.
+
+(** ---- contexts ---- *)
+Lemma geo_same n l l' :
+  map s_start l' = map s_start l -> map s_end l' = map s_end l -> Forall (seg_geo n) l -> Forall (seg_geo n) l'.
+Proof.
+  revert l'. induction l as [|g r IH]; intros [|g' r'] Hs He Hf; try discriminate; [constructor|].
+  cbn [map] in Hs, He. injection Hs as Hs1 Hs2. injection He as He1 He2. inversion Hf as [|? ? (A & B) Hr]; subst.
+  constructor; [split; lia | apply IH; assumption].
+Qed.
+Lemma sgeo_same sg l' :
+  map s_start l' = map s_start (sg_segs sg) -> map s_end l' = map s_end (sg_segs sg) -> sgeo sg -> sgeo (sg_with_segs sg l').
+Proof. intros Hs He (Hc & Hf). split; cbn; [apply (chain_same _ _ Hs He Hc) | apply (geo_same _ _ _ Hs He Hf)]. Qed.
+
+(** an error other than the two excluded kinds; a fuel error only when the geometric invariant is off *)
+Definition err_allowed (e : err) : Prop := e = ErrSubstr \/ (e = ErrFuel /\ ~ GE).
+Lemma err_ok_fail c e : err_allowed e -> err_ok (cx_err c) -> err_ok (cx_err (ctx_fail c e)).
+Proof. intros He H. cbn. destruct (cx_err c); [exact H|]. destruct He as [-> | (-> & _)]; exact I. Qed.
+Lemma cinv_err c e : err_allowed e -> cinv c -> cinv (ctx_fail c e).
+Proof.
+  intros He ((H1 & H2 & H3 & H4 & H5 & Hg) & H6). split; [|exact H6].
+  split; [exact H1|]. split; [exact H2|]. split; [exact H3|]. split; [exact H4|].
+  split; [apply err_ok_fail; assumption|]. intros G. destruct (Hg G) as (Hgeo & Hne). split; [exact Hgeo|].
+  cbn. destruct (cx_err c) as [x|]; [exact Hne|]. destruct He as [-> | (_ & Hn)]; [discriminate | contradiction].
+Qed.
+Lemma cinv_check c b e : (b = false -> err_allowed e) -> cinv c -> cinv (ctx_check c b e).
+Proof. intros He H. unfold ctx_check. destruct b; [exact H | apply cinv_err; auto]. Qed.
 Lemma cinv_opts c o : cinv c -> cinv (ctx_with_opts c o).
 Proof. intros H; exact H. Qed.
 Lemma cinv_comp c sg :
-  cinv c -> segs_inv (sg_segs sg) -> sg_input sg = sg_input (cx_comp c) -> cinv (ctx_with_comp c sg).
+  cinv c -> segs_inv (sg_segs sg) -> sg_input sg = sg_input (cx_comp c) -> (GE -> sgeo sg) -> cinv (ctx_with_comp c sg).
 Proof.
-  intros ((H1 & _ & H3 & H4 & He) & H5) H2 E. split; [repeat split; auto; cbn; rewrite E; exact H4|].
-  cbn. rewrite E. exact H5.
+  intros ((H1 & _ & H3 & H4 & He & Hg) & H5 & H6) H2 E G.
+  split; [|cbn; rewrite E; split; assumption].
+  split; [exact H1|]. split; [exact H2|]. split; [exact H3|]. split; [cbn; rewrite E; exact H4|]. split; [exact He|].
+  intros G0. split; [apply G, G0 | apply Hg, G0].
 Qed.
+Lemma cinv_geo c : cinv c -> GE -> sgeo (cx_comp c) /\ cx_caret c <= length (sg_input (cx_comp c)).
+Proof. intros ((_ & _ & _ & _ & _ & Hg) & _ & H6) G. split; [apply Hg, G | apply H6, G]. Qed.
 Lemma cinv_segs c : cinv c -> segs_inv (sg_segs (cx_comp c)).
 Proof. intros H; apply H. Qed.
 Lemma cinv_cpre c : cinv c -> cpre c.
@@ -313,7 +646,7 @@ Proof. intros H; apply H. Qed.
 
 Lemma compose_inv c : cpre c -> cinv (compose cfg translate c).
 Proof.
-  intros (Hc & Hs & Hi & Hci & He). unfold compose.
+  intros (Hc & Hs & Hi & Hci & He & Hg). unfold compose.
   set (sg0 := reset_input (cx_comp c) (firstn (cx_caret c) (cx_input c))).
   assert (H0 : segs_inv (sg_segs sg0)) by (apply reset_input_inv; exact Hs).
   set (sg1 := if (cx_caret c <? length (cx_input c)) && (cx_caret c =? confirmed_pos sg0)
@@ -321,27 +654,44 @@ Proof.
   assert (H1 : segs_inv (sg_segs sg1)).
   { subst sg1. destruct ((cx_caret c <? length (cx_input c)) && (cx_caret c =? confirmed_pos sg0));
       [apply reset_input_inv|]; exact H0. }
+  assert (G1 : GE -> sgeo sg1).
+  { intros G. destruct (Hg G) as (Hgeo & _). subst sg1 sg0.
+    destruct ((cx_caret c <? length (cx_input c)) && _); [apply reset_input_geo|]; apply reset_input_geo; exact Hgeo. }
   pose proof (calc_segmentation_inv (cx_caret c) sg1 H1) as H2.
   assert (Hi1 : IP (sg_input sg1)).
   { subst sg1. destruct ((cx_caret c <? length (cx_input c)) && (cx_caret c =? confirmed_pos sg0));
       [rewrite reset_input_input; exact Hi | subst sg0; rewrite reset_input_input; apply IP_firstn; exact Hi]. }
+  assert (Hl1 : length (sg_input sg1) <= length (cx_input c) /\ cx_caret c <= length (sg_input sg1)).
+  { subst sg1. destruct ((cx_caret c <? length (cx_input c)) && (cx_caret c =? confirmed_pos sg0));
+      [rewrite reset_input_input; lia | subst sg0; rewrite reset_input_input, firstn_length; lia]. }
   pose proof (calc_segmentation_input (cx_caret c) sg1) as Ci.
-  destruct (calc_segmentation cfg (cx_caret c) sg1) as [sg2 okf] eqn:Ec. cbn [fst] in H2, Ci.
+  assert (G2 : GE -> sgeo (fst (calc_segmentation cfg (cx_caret c) sg1)) /\ snd (calc_segmentation cfg (cx_caret c) sg1) = true)
+    by (intros G; apply calc_segmentation_geo, G1, G).
+  destruct (calc_segmentation cfg (cx_caret c) sg1) as [sg2 okf] eqn:Ec. cbn [fst snd] in H2, Ci, G2.
   assert (Hi2 : IP (sg_input sg2)) by (rewrite Ci; exact Hi1).
   pose proof (translate_segs_inv sg2 Hi2 H2) as H3.
-  destruct (translate_segs translate sg2) as [sg3 oks] eqn:Et. cbn [fst] in H3.
+  assert (G3 : GE -> sgeo (fst (translate_segs translate sg2)) /\ snd (translate_segs translate sg2) = true)
+    by (intros G; apply translate_segs_geo, G2, G).
+  destruct (translate_segs translate sg2) as [sg3 oks] eqn:Et. cbn [fst snd] in H3, G3.
   assert (E3 : sg_input sg3 = sg_input sg2).
   { pose proof (translate_segs_input sg2) as T. rewrite Et in T. exact T. }
-  apply cinv_check; [auto|]. apply cinv_check; [auto|].
-  split; [split; [exact Hc|]; split; [exact H3|]; split; [exact Hi|]; split; [|exact He]|];
-    cbn [ctx_with_comp cx_comp cx_input]; rewrite E3; [exact Hi2|].
-  rewrite Ci. subst sg1. destruct ((cx_caret c <? length (cx_input c)) && (cx_caret c =? confirmed_pos sg0));
-    [rewrite reset_input_input; lia | subst sg0; rewrite reset_input_input, firstn_length; lia].
+  apply cinv_check.
+  { intros ->. left; reflexivity. }
+  apply cinv_check.
+  { intros ->. right. split; [reflexivity|]. intros G. destruct (G2 G) as (_ & X). discriminate. }
+  split; [split; [exact Hc|]; split; [exact H3|]; split; [exact Hi|]; split; [|split; [exact He|]]|];
+    cbn [ctx_with_comp cx_comp cx_input cx_err cx_caret]; rewrite ?E3, ?Ci.
+  - rewrite <- Ci. exact Hi2.
+  - intros G. split; [apply G3, G | apply Hg, G].
+  - split; [lia | intros _; lia].
 Qed.
 
 Lemma compose_with_input_inv c i k :
   cinv c -> k <= length i -> IP i -> cinv (compose cfg translate (ctx_with_input c i k)).
-Proof. intros ((_ & Hs & _ & Hci & He) & _) Hk Hi. apply compose_inv. repeat split; assumption. Qed.
+Proof.
+  intros ((_ & Hs & _ & Hci & He & Hg) & _) Hk Hi. apply compose_inv.
+  split; [exact Hk|]. split; [exact Hs|]. split; [exact Hi|]. split; [exact Hci|]. split; [exact He | exact Hg].
+Qed.
 
 Lemma cinv_ip c : cinv c -> IP (cx_input c).
 Proof. intros H; apply H. Qed.
@@ -373,7 +723,10 @@ Qed.
 
 Lemma clear_inv c : cinv c -> cinv (clear cfg translate c).
 Proof.
-  intros H. unfold clear. apply compose_inv. repeat split; cbn; [lia | constructor | exact IP_nil | apply H | apply H].
+  intros H. unfold clear. apply compose_inv.
+  split; [cbn; lia|]. split; [constructor|]. split; [exact IP_nil|]. split; [apply H|]. split; [apply H|].
+  intros G. destruct (cinv_geo c H G) as (_ & _). destruct H as ((_ & _ & _ & _ & _ & Hg) & _).
+  split; [split; constructor | apply Hg, G].
 Qed.
 
 Lemma set_caret_pos_inv c pos : cinv c -> cinv (set_caret_pos cfg translate c pos).
@@ -388,22 +741,58 @@ Proof. intros H Hv. unfold set_input. apply compose_with_input_inv; [exact H | l
 Lemma back_inv c g r : cinv c -> sg_segs (cx_comp c) = g :: r -> seg_inv g.
 Proof. intros ((_ & H & _) & _) E. rewrite E in H. inversion H; assumption. Qed.
 
-Lemma cinv_set_back c g : cinv c -> seg_inv g -> cinv (ctx_with_comp c (sg_set_back (cx_comp c) g)).
+(** what replacing the last segment [g0] by [g] needs for the geometry *)
+Definition back_geo_ok (c : context) (g : segment) : Prop :=
+  forall g0 r, sg_segs (cx_comp c) = g0 :: r ->
+               s_start g = s_start g0 /\ seg_geo (length (sg_input (cx_comp c))) g.
+
+Lemma cinv_set_back c g :
+  cinv c -> seg_inv g -> (GE -> back_geo_ok c g) -> cinv (ctx_with_comp c (sg_set_back (cx_comp c) g)).
 Proof.
-  intros H Hg. apply cinv_comp; [exact H| |apply set_back_input]. apply set_back_inv; [apply H | exact Hg].
+  intros H Hg Hb. apply cinv_comp; [exact H| |apply set_back_input|]; [apply set_back_inv; [apply H | exact Hg]|].
+  intros G. destruct (cinv_geo c H G) as (Hgeo & _). unfold sg_set_back.
+  destruct (sg_segs (cx_comp c)) as [|g0 r] eqn:E; [exact Hgeo|].
+  destruct (Hb G g0 r E) as (B1 & B2). apply (set_back_geo (cx_comp c) g g0 r Hgeo E B1 B2).
+Qed.
+
+(** the usual case: start and end unchanged *)
+Lemma back_geo_same c g :
+  cinv c -> (forall g0 r, sg_segs (cx_comp c) = g0 :: r -> s_start g = s_start g0 /\ s_end g = s_end g0) ->
+  GE -> back_geo_ok c g.
+Proof.
+  intros H Hs G g0 r E. destruct (Hs g0 r E) as (S1 & S2). split; [exact S1|].
+  destruct (cinv_geo c H G) as ((_ & Hf) & _). rewrite E in Hf. inversion Hf as [|? ? (A & B) _]; subst. split; lia.
+Qed.
+
+Lemma seg_reopen_geo n g k :
+  seg_geo n g -> k <= n -> s_start (fst (seg_reopen g k)) = s_start g /\ seg_geo n (fst (seg_reopen g k)).
+Proof.
+  intros (A & B) Hk. unfold seg_reopen. destruct (negb (status_geb (s_status g) SSelected)); cbn [fst]; [split; [reflexivity | split; assumption]|].
+  destruct (s_start g + s_length g =? k) eqn:E; cbn [fst]; [|split; [reflexivity | split; assumption]].
+  apply Nat.eqb_eq in E. destruct (s_end g <? s_start g + s_length g) eqn:E2;
+    [apply Nat.ltb_lt in E2 | apply Nat.ltb_ge in E2]; (split; [reflexivity|]);
+    split; cbn [s_start s_end seg_with_status seg_with_tags seg_with_end]; lia.
 Qed.
 
 Lemma reopen_previous_segment_inv c : cinv c -> cinv (fst (reopen_previous_segment cfg translate c)).
 Proof.
   intros H. unfold reopen_previous_segment.
   pose proof (trim_inv (cx_comp c) (cinv_segs c H)) as Ht. pose proof (trim_input (cx_comp c)) as Ei.
-  destruct (trim (cx_comp c)) as [sg trimmed]. cbn [fst] in Ht, Ei. destruct trimmed; [|exact H]. cbn [fst].
-  apply compose_inv, cinv_cpre. apply cinv_comp; [exact H| |].
+  destruct (trim (cx_comp c)) as [sg trimmed] eqn:Hte. cbn [fst] in Ht, Ei. destruct trimmed; [|exact H]. cbn [fst].
+  assert (Hg0 : GE -> sgeo sg /\ cx_caret c <= length (sg_input sg)).
+  { intros G. destruct (cinv_geo c H G) as (Hgeo & Hcar). pose proof (trim_geo (cx_comp c) Hgeo) as Tg.
+    rewrite Hte in Tg. cbn [fst] in Tg. split; [exact Tg | rewrite Ei; exact Hcar]. }
+  apply compose_inv, cinv_cpre. apply cinv_comp; [exact H| | |].
   - destruct (sg_segs sg) as [|g r] eqn:E; [rewrite E; exact Ht|].
     destruct (status_geb (s_status g) SSelected); [|rewrite E; exact Ht].
     apply set_back_inv; [rewrite E; exact Ht|]. apply seg_inv_reopen. inversion Ht; assumption.
   - destruct (sg_segs sg) as [|g r]; [exact Ei|].
     destruct (status_geb (s_status g) SSelected); [rewrite set_back_input|]; exact Ei.
+  - intros G. destruct (Hg0 G) as (Hgeo & Hcar). destruct (sg_segs sg) as [|g r] eqn:E; [exact Hgeo|].
+    destruct (status_geb (s_status g) SSelected); [|exact Hgeo]. unfold sg_set_back. rewrite E.
+    destruct Hgeo as (Hc0 & Hf0). pose proof Hf0 as Hf1. rewrite E in Hf1. inversion Hf1 as [|? ? Hgg _]; subst.
+    destruct (seg_reopen_geo _ g (cx_caret c) Hgg Hcar) as (R1 & R2).
+    apply (set_back_geo sg _ g r (conj Hc0 Hf0) E R1 R2).
 Qed.
 
 Lemma clear_previous_segment_inv c : cinv c -> cinv (fst (clear_previous_segment cfg translate c)).
@@ -421,11 +810,25 @@ Proof.
   constructor; [apply seg_inv_reopen|]; assumption.
 Qed.
 
+Lemma reopen_sel_rev_geo n l k l' :
+  chain_rev l -> Forall (seg_geo n) l -> k <= n -> reopen_sel_rev l k = Some l' ->
+  chain_rev l' /\ Forall (seg_geo n) l'.
+Proof.
+  revert l'. induction l as [|g r IH]; intros l' Hc Hf Hk E; [discriminate|].
+  inversion Hf as [|? ? Hg Hr]; subst. cbn [reopen_sel_rev] in E.
+  destruct (s_status g); try discriminate; try (apply IH; [apply (chain_tl (g :: r)), Hc | assumption..]).
+  destruct (has_tag TSelectedBeforeEditing (s_tags g)); [discriminate|]. injection E as <-.
+  destruct (seg_reopen_geo n g k Hg Hk) as (R1 & R2). destruct Hc as (C1 & C2).
+  split; [split; [rewrite R1; exact C1 | exact C2] | constructor; assumption].
+Qed.
+
 Lemma reopen_previous_selection_inv c : cinv c -> cinv (fst (reopen_previous_selection cfg translate c)).
 Proof.
   intros H. unfold reopen_previous_selection.
   destruct (reopen_sel_rev (sg_segs (cx_comp c)) (cx_caret c)) as [l|] eqn:E; [|exact H]. cbn [fst].
-  apply compose_inv, cinv_cpre, cinv_comp; [exact H| |reflexivity]. apply (reopen_sel_rev_inv _ _ _ (cinv_segs c H) E).
+  apply compose_inv, cinv_cpre, cinv_comp; [exact H| |reflexivity|]. apply (reopen_sel_rev_inv _ _ _ (cinv_segs c H) E).
+  intros G. destruct (cinv_geo c H G) as ((Hc0 & Hf0) & Hcar).
+  destruct (reopen_sel_rev_geo _ _ _ _ Hc0 Hf0 Hcar E) as (R1 & R2). split; assumption.
 Qed.
 
 Lemma drop_unselected_inv l : segs_inv l -> segs_inv (fst (drop_unselected l)).
@@ -434,13 +837,24 @@ Proof.
   destruct (status_geb (s_status g) SSelected); [exact H|]. cbn [fst]. apply IH. inversion H; assumption.
 Qed.
 
+Lemma drop_unselected_geo n l : chain_rev l -> Forall (seg_geo n) l ->
+  chain_rev (fst (drop_unselected l)) /\ Forall (seg_geo n) (fst (drop_unselected l)).
+Proof.
+  induction l as [|g r IH]; intros Hc Hf; [split; assumption|]. cbn [drop_unselected].
+  destruct (status_geb (s_status g) SSelected); [split; assumption|]. cbn [fst].
+  inversion Hf; subst. apply IH; [apply (chain_tl (g :: r)), Hc | assumption].
+Qed.
+
 Lemma clear_non_confirmed_inv c : cinv c -> cinv (fst (clear_non_confirmed c)).
 Proof.
   intros H. unfold clear_non_confirmed. pose proof (drop_unselected_inv _ (cinv_segs c H)) as Hd.
-  destruct (drop_unselected (sg_segs (cx_comp c))) as [l reverted]. cbn [fst] in Hd.
+  destruct (drop_unselected (sg_segs (cx_comp c))) as [l reverted] eqn:Ed. cbn [fst] in Hd.
   destruct reverted; [|exact H]. cbn [fst].
-  apply cinv_comp; [exact H| |apply (forward_input (sg_with_segs (cx_comp c) l))].
+  apply cinv_comp; [exact H| |apply (forward_input (sg_with_segs (cx_comp c) l))|].
   apply (forward_inv (sg_with_segs (cx_comp c) l)). exact Hd.
+  intros G. destruct (cinv_geo c H G) as ((Hc0 & Hf0) & _). apply forward_geo.
+  pose proof (drop_unselected_geo _ (sg_segs (cx_comp c)) Hc0 Hf0) as Dg. rewrite Ed in Dg. cbn [fst] in Dg.
+  destruct Dg as (D1 & D2). split; assumption.
 Qed.
 
 Lemma refresh_non_confirmed_inv c : cinv c -> cinv (fst (refresh_non_confirmed cfg translate c)).
@@ -456,8 +870,33 @@ Proof.
   destruct (s_status g); try exact H; constructor; auto using seg_inv_tags; apply IH; assumption.
 Qed.
 
+Lemma begin_editing_rev_maps l :
+  map s_start (begin_editing_rev l) = map s_start l /\ map s_end (begin_editing_rev l) = map s_end l.
+Proof.
+  induction l as [|g r (I1 & I2)]; [split; reflexivity|]. cbn [begin_editing_rev].
+  destruct (s_status g); cbn [map]; try (split; reflexivity); rewrite ?I1, ?I2; split; reflexivity.
+Qed.
+
 Lemma begin_editing_inv c : cinv c -> cinv (begin_editing c).
-Proof. intros H. unfold begin_editing. apply cinv_comp; [exact H| |reflexivity]. apply begin_editing_rev_inv, H. Qed.
+Proof.
+  intros H. unfold begin_editing. apply cinv_comp; [exact H| |reflexivity|]. apply begin_editing_rev_inv, H.
+  intros G. destruct (cinv_geo c H G) as (Hgeo & _). destruct (begin_editing_rev_maps (sg_segs (cx_comp c))) as (M1 & M2).
+  apply sgeo_same; assumption.
+Qed.
+
+Ltac same_geo H E :=
+  apply (back_geo_same _ _ H); let g0' := fresh in let r0' := fresh in let E' := fresh in
+  intros g0' r0' E'; rewrite E in E'; injection E' as <- <-; split; reflexivity.
+
+Lemma seg_close_geo n g : seg_inv g -> GE -> seg_geo n g -> s_start (seg_close g) = s_start g /\ seg_geo n (seg_close g).
+Proof.
+  intros (_ & Hm) G (A & B). unfold seg_close. destruct (selected_cand g) as [c|] eqn:Ec; [|split; [reflexivity | split; assumption]].
+  destruct (c_end c <? s_end g) eqn:E; [|split; [reflexivity | split; assumption]]. apply Nat.ltb_lt in E.
+  split; [reflexivity|]. split; cbn; [|lia].
+  unfold selected_cand, cand_at in Ec. destruct (s_menu g) as [m|] eqn:Em; [|discriminate].
+  destruct (Hm m eq_refl) as (_ & _ & Hmp). unfold menu_at in Ec. destruct (menu_count m <=? s_sel g)%N; [discriminate|].
+  apply nth_error_In in Ec. apply (HGE G _ m Hmp c Ec).
+Qed.
 
 Lemma highlight_inv c i : cinv c -> cinv (fst (highlight cfg translate c i)).
 Proof.
@@ -467,7 +906,7 @@ Proof.
   set (count := if (requested =? 0)%N then menu_count m else menu_prepare m requested).
   set (new_index := if (0 <? count)%N then N.min (count - 1) i else 0%N).
   destruct (s_sel g =? new_index)%N; [exact H|]. cbn [fst].
-  apply compose_inv, cinv_cpre, cinv_set_back; [exact H|].
+  apply compose_inv, cinv_cpre, cinv_set_back; [exact H| |same_geo H E].
   apply seg_inv_sel_at; [apply (back_inv c g r H E)|].
   intros m' Hm' Hne. rewrite Em in Hm'. injection Hm' as <-.
   assert (Hpos : (0 < menu_count m)%N) by (unfold menu_count; destruct m; [congruence | cbn; lia]).
@@ -496,7 +935,7 @@ Lemma commit_inv s : sinv s -> sinv (fst (commit cfg translate s)).
 Proof.
   intros H. unfold commit. destruct (negb (is_composing (st_ctx s))); [exact H|].
   destruct (ctx_commit_text (st_ctx s)) as [text ok]. cbn [fst]. apply sinv_with.
-  apply clear_inv. cbn. apply cinv_check; [auto | exact H].
+  apply clear_inv. cbn. apply cinv_check; [intros _; left; reflexivity | exact H].
 Qed.
 
 Lemma on_select_inv s : sinv s -> sg_segs (cx_comp (st_ctx s)) <> [] -> sinv (on_select cfg translate s).
@@ -505,16 +944,26 @@ Proof.
   match goal with |- sinv (mkSt (st_ctx ?x) _ _ _) => assert (Hx : sinv x); [|exact Hx] end.
   destruct (sg_segs (cx_comp (st_ctx s))) as [|g0 r] eqn:E; [congruence|].
   pose proof (seg_inv_close g0 (back_inv _ _ _ H E)) as Hg.
+  assert (Hcg : forall x, s_start x = s_start (seg_close g0) -> s_end x = s_end (seg_close g0) ->
+                          GE -> back_geo_ok (st_ctx s) x).
+  { intros x X1 X2 G g1 r1 E1. rewrite E in E1. injection E1 as <- <-.
+    destruct (cinv_geo _ H G) as ((_ & Hf) & _). rewrite E in Hf. inversion Hf as [|? ? Hgg _]; subst.
+    destruct (seg_close_geo _ g0 (back_inv _ _ _ H E) G Hgg) as (C1 & (C2 & C3)).
+    split; [congruence | split; lia]. }
   destruct (s_end (seg_close g0) =? length (cx_input (st_ctx s))).
   - set (c1 := ctx_with_comp (st_ctx s) (sg_set_back (cx_comp (st_ctx s)) (seg_with_status (seg_close g0) SConfirmed))).
-    assert (H1 : cinv c1) by (apply cinv_set_back; [exact H | apply seg_inv_status, Hg]).
+    assert (H1 : cinv c1) by (apply cinv_set_back; [exact H | apply seg_inv_status, Hg | apply Hcg; reflexivity]).
     destruct (get_option c1 opt_auto_commit).
     + apply commit_inv. exact H1.
-    + apply sinv_with, cinv_comp; [exact H1| |apply forward_input]. apply forward_inv, H1.
-  - set (c1 := ctx_with_comp (st_ctx s) (fst (forward (sg_set_back (cx_comp (st_ctx s)) (seg_close g0))))).
+    + apply sinv_with, cinv_comp; [exact H1| |apply forward_input|]. apply forward_inv, H1.
+      intros G. apply forward_geo, (cinv_geo c1 H1 G).
+  - set (c0 := ctx_with_comp (st_ctx s) (sg_set_back (cx_comp (st_ctx s)) (seg_close g0))).
+    assert (H0 : cinv c0) by (apply cinv_set_back; [exact H | exact Hg | apply Hcg; reflexivity]).
+    set (c1 := ctx_with_comp (st_ctx s) (fst (forward (sg_set_back (cx_comp (st_ctx s)) (seg_close g0))))).
     assert (H1 : cinv c1).
-    { apply cinv_comp; [exact H| |rewrite forward_input; apply set_back_input].
-      apply forward_inv, set_back_inv; [apply H | exact Hg]. }
+    { change c1 with (ctx_with_comp c0 (fst (forward (cx_comp c0)))).
+      apply cinv_comp; [exact H0| |apply forward_input|]. apply forward_inv, H0.
+      intros G. apply forward_geo, (cinv_geo c0 H0 G). }
     destruct (cx_caret (st_ctx s) <=? s_end (seg_close g0)); apply sinv_with;
       [apply set_caret_pos_inv | apply compose_inv, cinv_cpre]; exact H1.
 Qed.
@@ -524,7 +973,7 @@ Proof.
   intros H. unfold select. destruct (sg_segs (cx_comp (st_ctx s))) as [|g r] eqn:E; [exact H|].
   destruct (cand_at g i) as [cd|] eqn:Ec; [|exact H]. cbn [fst].
   apply on_select_inv; [|cbn; unfold sg_set_back; rewrite E; discriminate].
-  apply sinv_with, cinv_set_back; [exact H|].
+  apply sinv_with, cinv_set_back; [exact H| |same_geo H E].
   apply seg_inv_status, seg_inv_sel_at; [apply (back_inv _ _ _ H E)|].
   intros m Hm _. apply (cand_at_some g i cd Ec m Hm).
 Qed.
@@ -533,7 +982,7 @@ Lemma confirm_current_selection_inv s : sinv s -> sinv (fst (confirm_current_sel
 Proof.
   intros H. unfold confirm_current_selection. destruct (sg_segs (cx_comp (st_ctx s))) as [|g r] eqn:E; [exact H|].
   assert (H1 : sinv (st_with_ctx s (ctx_with_comp (st_ctx s) (sg_set_back (cx_comp (st_ctx s)) (seg_with_status g SSelected))))).
-  { apply sinv_with, cinv_set_back; [exact H | apply seg_inv_status, (back_inv _ _ _ H E)]. }
+  { apply sinv_with, cinv_set_back; [exact H | apply seg_inv_status, (back_inv _ _ _ H E) | same_geo H E]. }
   assert (Hne : sg_segs (cx_comp (st_ctx (st_with_ctx s (ctx_with_comp (st_ctx s)
                   (sg_set_back (cx_comp (st_ctx s)) (seg_with_status g SSelected)))))) <> [])
     by (cbn; unfold sg_set_back; rewrite E; discriminate).
@@ -546,7 +995,7 @@ Lemma delete_candidate_inv s i : sinv s -> sinv (fst (delete_candidate cfg s i))
 Proof.
   intros H. unfold delete_candidate. destruct (sg_segs (cx_comp (st_ctx s))) as [|g r] eqn:E; [exact H|].
   rewrite Hdel. destruct (cand_at g i) as [cd|] eqn:Ec; [|exact H]. cbn [fst].
-  apply sinv_with, cinv_set_back; [exact H|]. apply seg_inv_sel_at; [apply (back_inv _ _ _ H E)|].
+  apply sinv_with, cinv_set_back; [exact H| |same_geo H E]. apply seg_inv_sel_at; [apply (back_inv _ _ _ H E)|].
   intros m Hm _. apply (cand_at_some g i cd Ec m Hm).
 Qed.
 
@@ -578,10 +1027,12 @@ Qed.
 
 (** ---- Selector ---- *)
 Lemma with_back_inv c f : cinv c -> (forall g r, sg_segs (cx_comp c) = g :: r -> seg_inv g -> seg_inv (f g)) ->
+  (forall g, s_start (f g) = s_start g /\ s_end (f g) = s_end g) ->
   cinv (with_back c f).
 Proof.
-  intros H Hf. unfold with_back. destruct (sg_segs (cx_comp c)) as [|g r] eqn:E; [exact H|].
-  apply cinv_set_back; [exact H|]. apply (Hf g r eq_refl). apply (back_inv c g r H E).
+  intros H Hf Hse. unfold with_back. destruct (sg_segs (cx_comp c)) as [|g r] eqn:E; [exact H|].
+  apply cinv_set_back; [exact H| |]. apply (Hf g r eq_refl). apply (back_inv c g r H E).
+  apply (back_geo_same _ _ H). intros g0 r0 E0. rewrite E in E0. injection E0 as <- <-. apply Hse.
 Qed.
 
 Lemma set_sel_paging_inv c z :
@@ -589,7 +1040,7 @@ Lemma set_sel_paging_inv c z :
   (forall g r m, sg_segs (cx_comp c) = g :: r -> s_menu g = Some m -> m <> [] -> (0 <= z < Z.of_nat (length m))%Z) ->
   cinv (set_sel_paging c z).
 Proof.
-  intros H Hz. unfold set_sel_paging. apply with_back_inv; [exact H|]. intros g r E Hg.
+  intros H Hz. unfold set_sel_paging. apply with_back_inv; [exact H| |intros g; split; reflexivity]. intros g r E Hg.
   apply seg_inv_tags, seg_inv_sel_at; [exact Hg|]. intros m Hm Hne.
   specialize (Hz g r m E Hm Hne). destruct (proj2 Hg m Hm) as (Hb & _). unfold menu_bounded in Hb.
   rewrite size_of_int_small by lia. unfold menu_count. lia.
@@ -666,7 +1117,7 @@ Qed.
 Lemma sel_home_inv c : cinv c -> cinv (fst (sel_home c)).
 Proof.
   intros H. unfold sel_home. destruct (sg_segs (cx_comp c)) as [|g r] eqn:E; [exact H|].
-  destruct (0 <? s_sel g)%N; [|exact H]. cbn [fst]. apply with_back_inv; [exact H|]. intros g' r' _ Hg.
+  destruct (0 <? s_sel g)%N; [|exact H]. cbn [fst]. apply with_back_inv; [exact H| |intros g1; split; reflexivity]. intros g' r' _ Hg.
   apply seg_inv_sel_at; [exact Hg|]. intros m _ Hne. unfold menu_count. destruct m; [congruence | cbn; lia].
 Qed.
 
@@ -807,7 +1258,7 @@ Proof.
   - apply commit_inv. apply on_ctx_inv; [exact H | intros; apply clear_non_confirmed_inv; assumption].
   - destruct (comp_script_text (cx_comp (st_ctx s))) as [t ok]. cbn [fst].
     apply on_ctx_inv; [|intros; apply clear_inv; assumption]. apply sinv_sink. apply on_ctx_inv; [exact H|].
-    intros c Hc. apply cinv_check; [auto | exact Hc].
+    intros c Hc. apply cinv_check; [intros _; left; reflexivity | exact Hc].
   - pose proof (confirm_current_selection_inv s H) as H1.
     destruct (confirm_current_selection cfg translate s) as [s1 ok]. cbn [fst] in H1.
     destruct (negb ok || negb (has_menu (st_ctx s1))); cbn [fst]; [apply commit_inv|]; exact H1.
@@ -884,7 +1335,7 @@ Lemma change_page_inv s b : sinv s -> sinv (fst (change_page cfg translate s b))
 Proof.
   intros H. unfold change_page. destruct (negb (has_menu (st_ctx s))); [exact H|].
   destruct (sg_segs (cx_comp (st_ctx s))) as [|g r] eqn:E; [exact H|].
-  apply do_highlight_inv. apply sinv_with, cinv_set_back; [exact H|]. apply seg_inv_tags, (back_inv _ _ _ H E).
+  apply do_highlight_inv. apply sinv_with, cinv_set_back; [exact H| |same_geo H E]. apply seg_inv_tags, (back_inv _ _ _ H E).
 Qed.
 
 Lemma exec_inv s o : sinv s -> op_ok o -> sinv (fst (exec cfg translate s o)).
@@ -914,7 +1365,11 @@ Proof.
 Qed.
 
 Lemma init_inv : sinv (init_state cfg).
-Proof. repeat split; cbn; [lia | constructor | exact IP_nil | exact IP_nil | lia]. Qed.
+Proof.
+  split; [split; [cbn; lia|]; split; [constructor|]; split; [exact IP_nil|]; split; [exact IP_nil|]; split; [exact I|]|].
+  - intros _. split; [split; constructor | discriminate].
+  - cbn. split; [lia | intros _; lia].
+Qed.
 
 (** ---- everything [view_of] reports is well-formed ---- *)
 Ltac Zify.zify_post_hook ::= Z.div_mod_to_equations.
@@ -998,7 +1453,7 @@ Proof.
   pose proof (exec_inv s o H Ho) as H1. destruct (exec cfg translate s o) as [s1 r]. cbn [fst] in H1.
   pose proof (view_err_ok s1 H1) as Hv. destruct (view_of cfg s1) as [v ve]. cbn [snd] in Hv.
   assert (H2 : sinv (match ve with Some e => st_with_ctx s1 (ctx_fail (st_ctx s1) e) | None => s1 end)).
-  { destruct ve as [e|]; [|exact H1]. destruct e; try contradiction. apply (cinv_err (st_ctx s1)); [auto | exact H1]. }
+  { destruct ve as [e|]; [|exact H1]. destruct e; try contradiction. apply (cinv_err (st_ctx s1)); [left; reflexivity | exact H1]. }
   destruct (cx_err (st_ctx (match ve with Some e => st_with_ctx s1 (ctx_fail (st_ctx s1) e) | None => s1 end))); exact H2.
 Qed.
 
@@ -1093,14 +1548,14 @@ Proof. apply run_from_obs_ok, init_inv. Qed.
     reported preedit positions are character boundaries ---- *)
 Section Utf8.
 Hypothesis IP_ascii : forall l, IP l -> all_ascii l.
-Hypothesis MP_clean : forall m, MP m -> Forall (fun c => cand_clean c = true) m.
+Hypothesis MP_clean : forall st m, MP st m -> Forall (fun c => cand_clean c = true) m.
 
 Lemma seg_inv_clean g : seg_inv g -> seg_clean g.
 Proof.
   intros (_ & H) cd Hcd. unfold selected_cand, cand_at in Hcd. destruct (s_menu g) as [m|] eqn:Em; [|discriminate].
   destruct (H m eq_refl) as (_ & _ & Hmp). unfold menu_at in Hcd.
   destruct (menu_count m <=? s_sel g)%N; [discriminate|]. apply nth_error_In in Hcd.
-  apply (proj1 (Forall_forall _ _) (MP_clean m Hmp) cd Hcd).
+  apply (proj1 (Forall_forall _ _) (MP_clean _ m Hmp) cd Hcd).
 Qed.
 
 Lemma view_utf8 s : sinv s -> wf_view_utf8b (fst (view_of cfg s)) = true.
@@ -1154,7 +1609,7 @@ Theorem wf_reported (cfg : config) (translate : bytes -> seginfo -> list cand) :
   forall ops, forallb wf_obsb (snd (run cfg translate ops)) = true.
 Proof.
   intros Hps Hlen Hdel ops.
-  eapply wf_reported_gen with (MP := fun _ => True) (IP := fun _ => True); eauto.
+  eapply wf_reported_gen with (MP := fun _ _ => True) (IP := fun _ => True) (GE := False); eauto; try tauto.
   apply Forall_forall. intros o _. destruct o; exact I.
 Qed.
 
@@ -1167,9 +1622,9 @@ Theorem reachable_comp_input_le (cfg : config) (translate : bytes -> seginfo -> 
               length (sg_input (cx_comp c)) <= length (cx_input c) /\ cx_caret c <= length (cx_input c).
 Proof.
   intros Hps Hlen Hdel ops.
-  assert (H : sinv cfg (fun _ => True) (fun _ => True) (fst (run cfg translate ops))).
-  { eapply reachable_inv; eauto. apply Forall_forall. intros o _. destruct o; exact I. }
-  cbv zeta. destruct H as ((Hc & _) & Hr). split; assumption.
+  assert (H : sinv cfg (fun _ _ => True) (fun _ => True) False (fst (run cfg translate ops))).
+  { eapply reachable_inv; eauto; try tauto. apply Forall_forall. intros o _. destruct o; exact I. }
+  cbv zeta. destruct H as ((Hc & _) & Hr & _). split; assumption.
 Qed.
 
 (** over all histories the modelled core never dereferences a null candidate
@@ -1181,7 +1636,7 @@ Theorem no_null_no_bad_range (cfg : config) (translate : bytes -> seginfo -> lis
   forall ops, Forall obs_ok (snd (run cfg translate ops)).
 Proof.
   intros Hps Hlen Hdel ops.
-  eapply no_null_no_bad_range_gen with (MP := fun _ => True) (IP := fun _ => True); eauto.
+  eapply no_null_no_bad_range_gen with (MP := fun _ _ => True) (IP := fun _ => True) (GE := False); eauto; try tauto.
   apply Forall_forall. intros o _. destruct o; exact I.
 Qed.
 
@@ -1202,7 +1657,7 @@ Theorem wf_reported_utf8 (cfg : config) (translate : bytes -> seginfo -> list ca
   forall ops, Forall op_ascii ops -> forallb wf_obs_utf8b (snd (run cfg translate ops)) = true.
 Proof.
   intros Hps Hlen Hdel Hclean ops Hops.
-  eapply wf_reported_utf8_gen with (MP := Forall (fun c => cand_clean c = true)) (IP := all_ascii); eauto.
+  eapply wf_reported_utf8_gen with (MP := fun _ => Forall (fun c => cand_clean c = true)) (IP := all_ascii) (GE := False); eauto; try tauto.
   all: try (intros; apply Hclean; assumption).
   - constructor.
   - intros n l; apply all_ascii_firstn.
